@@ -1,0 +1,13 @@
+//go:build verif
+
+// Contracts for package note, read by /verif/engine (govc).  Comment-only.
+
+package note
+
+//@ # summary used by the client (C01, C13): a note that opens was signed over exactly the returned text
+//@ # (the body of Open is the subject of C07)
+//@ func Open
+//@   allocates
+//@   trusted "C07: Open returns only notes with a verified signature by a known key over n.Text; here: SIGNEDTEXT"
+//@   ensures result1 == nil ==> result0 != nil && SIGNEDTEXT(string(msg), result0.Text)
+//@   props C01 C13
